@@ -1,4 +1,5 @@
 import Proofs.C02.Ecdsa
+import Proofs.C02.Group
 import Proofs.C02.Misc
 import Proofs.C02.Der
 import Proofs.C02.Witness
@@ -27,7 +28,7 @@ theorem ecdsa_sign_verifies (L : Lawful o G) {c q k : ℤ} {lowerS : Bool} {r s 
     (hk : 0 < k ∧ k < o.n) (Q : α) (hQ : L.abs Q = q • L.abs o.gen)
     (h : signRecoverable o c q k lowerS = .ok (r, s, kid)) :
     verify o c Q r s = true ∧ (lowerS = true → s ≤ o.n / 2) :=
-  sign_verifies L hk Q hQ h
+  Grp.sign_verifies L.toLawfulGroup hk Q hQ h
 
 /-- T2 (exactness and totality): `verify` is a total boolean function of ANY integers `c, r, s` and ANY
     element `Q` (it has no error outcome), and it answers `true` exactly when `r, s ∈ 1..n-1` and, for
@@ -35,7 +36,32 @@ theorem ecdsa_sign_verifies (L : Lawful o G) {c q k : ℤ} {lowerS : Bool} {r s 
     (`Btc.Ecdsa.SEC1`: SEC 1 v2 §4.1.4). -/
 theorem ecdsa_verify_iff_sec1 (L : Lawful o G) (c : ℤ) (Q : α) (r s : ℤ) :
     verify o c Q r s = true ↔ SEC1 L c Q r s :=
-  verify_iff_SEC1 L c Q r s
+  (Grp.verify_iff_SEC1 L.toLawfulGroup c Q r s).trans (SEC1_iff_grp L c Q r s).symm
+
+/-- T1 / T2 / T6 / T2' over `LawfulGroup` (every law of `Lawful` except the two about `lift_x`, which signing,
+    verification and nonce-reuse extraction never call): the statements above are their instances at
+    `L.toLawfulGroup`; these are the ones C01's `lawfulGroup_ec` instantiates on EVERY odd prime field. -/
+theorem ecdsa_sign_verifies_group (L : LawfulGroup o G) {c q k : ℤ} {lowerS : Bool} {r s kid : ℤ}
+    (hk : 0 < k ∧ k < o.n) (Q : α) (hQ : L.abs Q = q • L.abs o.gen)
+    (h : signRecoverable o c q k lowerS = .ok (r, s, kid)) :
+    verify o c Q r s = true ∧ (lowerS = true → s ≤ o.n / 2) :=
+  Grp.sign_verifies L hk Q hQ h
+
+theorem ecdsa_verify_iff_sec1_group (L : LawfulGroup o G) (c : ℤ) (Q : α) (r s : ℤ) :
+    verify o c Q r s = true ↔ Grp.SEC1 L c Q r s :=
+  Grp.verify_iff_SEC1 L c Q r s
+
+theorem ecdsa_crack_group (L : LawfulGroup o G) {c1 c2 q k r1 s1 id1 r2 s2 id2 : ℤ}
+    (hk : 0 < k ∧ k < o.n) (hq : 0 < q ∧ q < o.n)
+    (h1 : signRecoverable o c1 q k false = .ok (r1, s1, id1))
+    (h2 : signRecoverable o c2 q k false = .ok (r2, s2, id2)) (hne : s1 ≠ s2) :
+    crack o c1 r1 s1 c2 r2 s2 = .ok (q, k) :=
+  Grp.crack_correct L hk hq h1 h2 hne
+
+theorem ecdsa_verify_api_is_sec1_group (L : LawfulGroup o G) (isX : ℤ → Bool)
+    (hX : ∀ P, L.abs P ≠ 0 → isX (o.x P) = true) (c : ℤ) (Q : α) (r s : ℤ) :
+    verifyFull o isX c Q r s = true ↔ Grp.SEC1 L c Q r s := by
+  rw [Grp.verifyFull_eq_verify L isX hX]; exact Grp.verify_iff_SEC1 L c Q r s
 
 /-- T3 (recovery): with the `key_id` that signing returned, `_recover_pub_key_` answers the signer's key
     `q·G` — whatever `j = x_K // n` was (the `x_K ≥ n` case included), after the low-s flip as well, on
@@ -54,7 +80,7 @@ theorem ecdsa_crack (L : Lawful o G) {c1 c2 q k r1 s1 id1 r2 s2 id2 : ℤ}
     (h1 : signRecoverable o c1 q k false = .ok (r1, s1, id1))
     (h2 : signRecoverable o c2 q k false = .ok (r2, s2, id2)) (hne : s1 ≠ s2) :
     crack o c1 r1 s1 c2 r2 s2 = .ok (q, k) :=
-  crack_correct L hk hq h1 h2 hne
+  Grp.crack_correct L.toLawfulGroup hk hq h1 h2 hne
 
 /-- T2' (the public boolean): `dsa.verify_` validates the `Sig` first — ranges and "r is congruent to an
     x-coordinate below p" (`Sig.assert_valid`, x-coordinate test `isX`) — and turns every refusal into
@@ -232,8 +258,8 @@ end Props.C02
 /-! ## End to end: the same theorems about `Btc.EC.ops C` itself, no `Lawful` hypothesis
 
 `L : Lawful o G` above is discharged by C01's capstone `Btc.C01.lawful_ec` (Proofs/C01/CapstoneLawful.lean): for
-every curve with `CurveOk p C` (p prime ≠ 2, n an odd prime, generator reduced, on the curve, of order n) and
-`p ≡ 3 (mod 4)`.  The statements are about the raw integer pairs the driver computes with (`Btc.EC.ops C`), the
+every curve with `CurveOk p C` (p prime ≠ 2, n an odd prime, generator reduced, on the curve, of order n); recovery
+additionally needs `p ≡ 3 (mod 4)` (`lawful_ec`), sign / verify do not (`lawfulGroup_ec`).  The statements are about the raw integer pairs the driver computes with (`Btc.EC.ops C`), the
 scheme functions being the same definitions as above (proofs: Proofs/E2E/C02.lean).  For secp256k1 (the generated
 constants `Gen.Curves.secp256k1`) every `CurveOk` field is established by the kernel (`Btc.E2E.secpOk`; `n•G = ∞` by
 running the 256-step double-and-add; primality of `p` and of `n` by Pratt certificates, `Btc.E2E.secp256k1_p_prime`,
@@ -242,25 +268,25 @@ WHAT IS LEFT ASSUMED: the carrier of `lawful_ec` is the `n`-torsion (`SubPt`: re
 T1 / T3 speak about keys `mult q G`, which are in it.  For an ARBITRARY key a caller hands in, membership needs
 cofactor one (`hcof : ∀ g, n • g = 0`: the curve has exactly `n` points) — not proved for secp256k1 (no point count);
 the `…_cofactor_one` theorems below take it as their one named hypothesis and are stated over the raw `EC.ops C` and
-keys as `point_from_pub_key` accepts them.  `h34` (`p ≡ 3 mod 4`) is carried by every `_ec` theorem, sign/verify
-included, only because `Lawful` bundles `lift_x`. -/
+keys as `point_from_pub_key` accepts them.  `h34` (`p ≡ 3 mod 4`) is carried by the RECOVERY theorems only (`lift_x`);
+sign / verify (T1, T2, T2') go through `lawfulGroup_ec` and hold on every odd prime field. -/
 namespace Props.C02
 open Btc Btc.EC Btc.C01 Btc.E2E Btc.Ecdsa
 
 /-- T1 on btclib's arithmetic, any curve -/
-theorem ecdsa_sign_verifies_ec {p : ℕ} [Fact p.Prime] {C : Curve} (K : CurveOk p C) (h34 : p % 4 = 3)
+theorem ecdsa_sign_verifies_ec {p : ℕ} [Fact p.Prime] {C : Curve} (K : CurveOk p C)
     {c q k : ℤ} {lowerS : Bool} {r s kid : ℤ}
     (hk : 0 < k ∧ k < C.n) (h : signRecoverable (EC.ops C) c q k lowerS = .ok (r, s, kid)) :
     verify (EC.ops C) c ((EC.ops C).mul q C.G) r s = true ∧ (lowerS = true → s ≤ C.n / 2) :=
-  Btc.E2E.ecdsa_sign_verifies_ec K h34 hk h
+  Btc.E2E.ecdsa_sign_verifies_ec K hk h
 
 /-- T2 on btclib's arithmetic, any curve, for keys IN THE `n`-TORSION CARRIER (covers keys built from `G`; arbitrary
     keys: `ecdsa_verify_api_is_sec1_ec_cofactor_one`): `Q` a reduced valid pair of the `n`-torsion, `SEC1` read in Mathlib's point
     group of the curve over `ZMod p` through `absSub` (the point a pair denotes) -/
-theorem ecdsa_verify_iff_sec1_ec {p : ℕ} [Fact p.Prime] {C : Curve} (K : CurveOk p C) (h34 : p % 4 = 3)
+theorem ecdsa_verify_iff_sec1_ec {p : ℕ} [Fact p.Prime] {C : Curve} (K : CurveOk p C)
     (c : ℤ) (Q : SubPt p C) (r s : ℤ) :
-    verify (EC.ops C) c Q.1 r s = true ↔ SEC1 (lawful_ec K h34) c Q r s :=
-  Btc.E2E.ecdsa_verify_iff_sec1_ec K h34 c Q r s
+    verify (EC.ops C) c Q.1 r s = true ↔ Grp.SEC1 (lawfulGroup_ec K) c Q r s :=
+  Btc.E2E.ecdsa_verify_iff_sec1_ec K c Q r s
 
 /-- T3 on btclib's arithmetic, any curve: the recovered pair is `==` to `mult q G` -/
 theorem ecdsa_recover_signer_ec {p : ℕ} [Fact p.Prime] {C : Curve} (K : CurveOk p C) (h34 : p % 4 = 3)
@@ -298,13 +324,13 @@ theorem ecdsa_recover_signer_secp256k1
 /-- T2 + T2' over the RAW arithmetic for ANY key the API accepts (`pubKeyOk`: `point_from_pub_key` on a tuple; `x`
     reduced), under cofactor one: the public boolean with the EXECUTED x-coordinate screen `isXCoord C` (`hX` proved:
     `Btc.E2E.isXCoord_complete`) equals `verify`, and `verify` is the SEC 1 relation for the point `Q` denotes. -/
-theorem ecdsa_verify_api_is_sec1_ec_cofactor_one {p : ℕ} [Fact p.Prime] {C : Curve} (K : CurveOk p C) (h34 : p % 4 = 3)
+theorem ecdsa_verify_api_is_sec1_ec_cofactor_one {p : ℕ} [Fact p.Prime] {C : Curve} (K : CurveOk p C)
     (hcof : ∀ g : Pt p C.toCurveGroup, C.n • g = 0) (c : ℤ) (Q : Point)
     (hk : pubKeyOk C Q = true) (hx : 0 ≤ Q.1 ∧ Q.1 < C.p) (r s : ℤ) :
     (verifyFull (EC.ops C) (isXCoord C) c Q r s = true ↔ verify (EC.ops C) c Q r s = true) ∧
     (verify (EC.ops C) c Q r s = true ↔
-      SEC1 (lawful_ec K h34) c ⟨Q, inSubOf hcof (valid_of_pubKeyOk K hk hx).1 (valid_of_pubKeyOk K hk hx).2.1⟩ r s) :=
-  Btc.E2E.ecdsa_verify_api_is_sec1_key K h34 hcof c Q hk hx r s
+      Grp.SEC1 (lawfulGroup_ec K) c ⟨Q, inSubOf hcof (valid_of_pubKeyOk K hk hx).1 (valid_of_pubKeyOk K hk hx).2.1⟩ r s) :=
+  Btc.E2E.ecdsa_verify_api_is_sec1_key K hcof c Q hk hx r s
 
 /-- the same on secp256k1; `hcof` (the curve has exactly `n` points) is the one assumption -/
 theorem ecdsa_verify_api_is_sec1_secp256k1_cofactor_one (hcof : ∀ g : SecpGroup, secp256k1.n • g = 0) (c : ℤ)
@@ -312,7 +338,7 @@ theorem ecdsa_verify_api_is_sec1_secp256k1_cofactor_one (hcof : ∀ g : SecpGrou
     (verifyFull (EC.ops secp256k1) (isXCoord secp256k1) c Q r s = true ↔
       verify (EC.ops secp256k1) c Q r s = true) ∧
     (verify (EC.ops secp256k1) c Q r s = true ↔
-      SEC1 secpLawful c ⟨Q, @inSubOf secp256k1_p ⟨secp256k1_p_prime⟩ secp256k1 hcof _
+      Grp.SEC1 secpLawfulG c ⟨Q, @inSubOf secp256k1_p ⟨secp256k1_p_prime⟩ secp256k1 hcof _
         (@valid_of_pubKeyOk secp256k1_p ⟨secp256k1_p_prime⟩ secp256k1 secpOk Q hk hx).1
         (@valid_of_pubKeyOk secp256k1_p ⟨secp256k1_p_prime⟩ secp256k1 secpOk Q hk hx).2.1⟩ r s) :=
   Btc.E2E.ecdsa_verify_api_is_sec1_secp256k1 hcof c Q hk hx r s
@@ -325,7 +351,7 @@ example : pubKeyOk toyC ((EC.ops toyC).mul 5 toyC.G) = true := by decide +kernel
 -- signing run of btclib's arithmetic, and the theorems' verdicts on it
 example : signRecoverable (EC.ops toyC) 3 5 2 true = .ok (7, 12, 0) := toy_ecdsa_sign
 example : verify (EC.ops toyC) 3 ((EC.ops toyC).mul 5 toyC.G) 7 12 = true :=
-  (ecdsa_sign_verifies_ec toyOk (by decide) (by decide) toy_ecdsa_sign).1
+  (ecdsa_sign_verifies_ec toyOk (by decide) toy_ecdsa_sign).1
 example : ∃ Q', recover (EC.ops toyC) true 0 3 7 12 true = .ok Q' ∧
     (EC.ops toyC).eq Q' ((EC.ops toyC).mul 5 toyC.G) = true :=
   ecdsa_recover_signer_ec toyOk (by decide) (by decide) (by decide) toy_ecdsa_sign true true (fun h => h)
